@@ -1,6 +1,7 @@
 #!/usr/bin/env python
 """Module containing simulation result classes."""
 
+import copy
 import os.path
 from collections.abc import Iterable
 from typing import (Any, Dict, Iterator, List, Optional, Tuple, TypedDict,
@@ -1127,8 +1128,10 @@ class SimulationResults(JsonSerializable):
         # If the current SimulationResults object is empty, we basically
         # copy the Result objects from other
         if len(self) == 0:
+            # Copy the Result objects: if they were adopted by reference, a
+            # later merge into self would modify the results stored in `other`
             for name in other.get_result_names():
-                self._results[name] = other[name]
+                self._results[name] = copy.deepcopy(other[name])
         # Otherwise, we merge each Result from `self` with the Result from
         # `other`
         else:
